@@ -72,5 +72,6 @@ InvAdmissible == IsCfg => Admissible(u) /\ BitCfgWellFormed(u)
 InvSignRefinement == IsCfg => SignRefinement(u)
 InvSpellingRefinement == IsCfg => SpellingRefinement(u, AllSpellings(u))
 InvClifford == IsCfg => CliffordRelations(BitCfg(u))
+InvRelabel == IsCfg => RelabelIsIsomorphism(u)
 InvTypeNumber == IsCfg /\ Dim(u) <= 3 => TypeNumberInjectiveOnSets(u)
 =============================================================================
